@@ -84,9 +84,11 @@ ABS_ENTRIES = {'Type': 'ty::Type<PortableForm>', 'Variant': 'variant::Variant<Po
 
 def abs_value(M, entry):
     """a value of the entry type whose vectors all have a symbolic length N < 2^32 and opaque elements; scalars, options, strings symbolic"""
-    cnt = [0]; vecs = []
+    cnt = [0]; vecs = []; ids = []
     def fresh(nm, w):
-        cnt[0] += 1; return z3.BitVec('%s%d' % (nm, cnt[0]), w)
+        cnt[0] += 1; v = z3.BitVec('%s%d' % (nm, cnt[0]), w)
+        if nm == 'id': ids.append(v)
+        return v
     def vec(tag):
         cnt[0] += 1; n = z3.BitVec('N_%s%d' % (tag, cnt[0]), 64); M.add(z3.ULT(n, bv(1 << 32, 64)))
         v = ArrVec(n, z3.Array('E_%s%d' % (tag, cnt[0]), z3.BitVecSort(64), ELEM)); vecs.append((tag, v)); return v
@@ -103,7 +105,7 @@ def abs_value(M, entry):
                                     5: [EnumV('TypeDefPrimitive', p, {k: [] for k in range(15)})], 6: [[sym()]], 7: [[sym(), sym()]]})
     def ty(): return [[vec('path.segments')], vec('type.type_params'), typedef(), vec('type.docs')]
     v = {'Type': ty, 'Variant': variant, 'Field': field, 'PortableRegistry': lambda: [vec('registry.types')]}[entry]()
-    return v, vecs
+    return v, vecs, ids
 
 
 def abs_ref(M, entry, v):
@@ -121,7 +123,7 @@ def body_lengths(entry, wrong=False):
     prefix, the decoder accepts every N and restores it.  Elements are opaque (their own codec is the subject of the bounded harnesses)."""
     def body(M):
         check_decls(M.decls, M)
-        v, vecs = abs_value(M, entry)
+        v, vecs, ids = abs_value(M, entry)
         orig = snapshot_abs(v)
         out = OutBuf()
         M.run_fn(M.resolve('<%s as Encode>::encode_to' % ABS_ENTRIES[entry]), [Ref(Cell(v)), Ref(Cell(out))])
@@ -164,7 +166,7 @@ def body_lengths(entry, wrong=False):
         which = sorted({w for w, c in viol if z3.is_true(m.eval(c, model_completion=True))})
         kd = None
         if entry == 'Type': kd = m.eval(orig[2].discr, model_completion=True).as_long()
-        M.emit('cex', what='lengths', entry=entry, failed=which[:5], lens=lens, defkind=kd)
+        M.emit('cex', what='lengths', entry=entry, failed=which[:5], lens=lens, defkind=kd, id=max([m.eval(x, model_completion=True).as_long() for x in ids] + [0]))
     return body
 
 
@@ -178,19 +180,30 @@ def snapshot_abs(v):
 
 def run_lengths(ctx, props):
     cexs = []
+    ctx.deferred = getattr(ctx, 'deferred', [])
     for entry in ABS_ENTRIES:
-        h = run_harness(ctx, 'lengths-' + entry, body_lengths(entry), models=CODEC_MODELS + ABS_MODELS, subst=CODEC_SUBST)
+        try:
+            h = run_harness(ctx, 'lengths-' + entry, body_lengths(entry), models=CODEC_MODELS + ABS_MODELS, subst=CODEC_SUBST)
+        except CheckInconclusive as e:
+            ctx.deferred.append(str(e)[:400])
+            if ctx.harnesses and ctx.harnesses[-1].name == 'lengths-' + entry: ctx.harnesses.pop()
+            continue
         c = [r for r in h.results if r['kind'] == 'cex' and any(f.startswith(tuple(props)) for f in r['failed'])]
         cexs += c
         ctx.obligations['%s: %s with vectors of every length < 2^32 (opaque elements; %d paths%s)' % ('/'.join(props), entry, sum(h.kinds.values()), ', %d cut at the element-loop bound' % h.kinds['cut'] if h.kinds.get('cut') else '')] = 'sat' if c else 'unsat'
-    hn = run_harness(ctx, 'negative-control-lengths', body_lengths('Variant', wrong=True), models=CODEC_MODELS + ABS_MODELS, subst=CODEC_SUBST); ctx.harnesses.pop()
-    if not any(r['kind'] == 'cex' for r in hn.results): raise CheckInconclusive('negative control (lengths) not refuted')
+    try:
+        hn = run_harness(ctx, 'negative-control-lengths', body_lengths('Variant', wrong=True), models=CODEC_MODELS + ABS_MODELS, subst=CODEC_SUBST); ctx.harnesses.pop()
+        if not any(r['kind'] == 'cex' for r in hn.results): raise CheckInconclusive('negative control (lengths) not refuted')
+    except CheckInconclusive as e:
+        if 'negative control' in str(e): raise
+        ctx.deferred.append(str(e)[:300])
+        if ctx.harnesses and ctx.harnesses[-1].name == 'negative-control-lengths': ctx.harnesses.pop()
     return cexs
 
 
 def replay_case(ctx, case, props):
     if case.get('what') == 'lengths':
-        a = ctx.get_native().ask({'op': 'codec_lengths', 'entry': case['entry'], 'lens': case['lens'], 'defkind': case.get('defkind')})
+        a = ctx.get_native().ask({'op': 'codec_lengths', 'entry': case['entry'], 'lens': case['lens'], 'defkind': case.get('defkind'), 'id': case.get('id', 0)})
         if a.get('panic') or a.get('crashed'): return True, None, a
         bad = []
         if 'C07' in props and not a.get('roundtrip_ok'): bad.append('roundtrip')
@@ -265,7 +278,11 @@ def finish_cases(ctx, cexs, props):
             seen.add(key)
             rep, role, a = replay_case(ctx, case, props)
             case['native'] = a
-            ctx.report_case(case, rep, role)
+            if rep: ctx.report_case(case, rep, role)
+            else:
+                # the abstraction hides the elements: a failure that depends on something else than a length may need the bounded harnesses to be
+                # demonstrated; it only counts against the check if nothing reproduces at the end
+                ctx.unreproduced = getattr(ctx, 'unreproduced', []) + [case]
             if len(ctx.violations) >= 3: break
             continue
         case = {'what': 'codec', 'types': c['types'], 'failed': c['failed'], 'lib_bytes': c['bytes']}
@@ -338,6 +355,7 @@ def run(ctx):
     cexs += run_plan(ctx, ('C07',), ('roundtrip',))
     finish_cases(ctx, cexs, ('C07',))
     if ctx.deferred and not ctx.violations: raise CheckInconclusive('part of the check cannot be executed on the current code and no violation was found by the rest: ' + '; '.join(ctx.deferred)[:1500])
+    if getattr(ctx, 'unreproduced', None) and not ctx.violations: raise CheckInconclusive('solver model does not reproduce natively (encoding error?): ' + json.dumps(ctx.unreproduced[0])[:800])
     ctx.samples.append({'obligation': 'per path of encode: decode(bytes) is Ok(v\') and v\' == v fieldwise and consumed == len(bytes)', 'verdict': 'unsat (negated) on all paths'})
     ctx.notes.append('injectivity: corollary of the round trip (decode is a function); determinism: the interpreted encode has no nondeterministic callee')
     if not ctx.violations: translator_validation(ctx, 60 if T else 25)
